@@ -13,6 +13,8 @@ BODIES = {
     "step": "<{|i, step: 1| yield i if i < %d; recur(i + step, step: step)}>" % LIM,
     "local": "<{|i| j := i * 2; yield j if i < %d; recur(i + 1)}>" % LIM,
     "argvar": "<{yield \\ if \\ != %d; recur(\\ + 1)}>" % LIM,
+    "recurfirst": "<{|i| recur(i + 1); yield i if i != 1 && i < %d}>" % (LIM + 2),
+    "deferrecur": "<{|i| defer recur(i + 1); yield i if i != 1 && i < %d}>" % (LIM + 2),
     "twoyields": "<{|i| yield i; yield nil if i != %d; recur(i + 1)}>" % LIM,
 }
 
@@ -105,8 +107,8 @@ def run():
     ck.cov["distinct_nontrivial"] = nontrivial
     ck.cov["traces_validated_against_impl"] = len(cases)
     ck.cov["exhaustive"] = not (thorough and len(cases) == 150000)
-    ck.cov["rule"] = (f"7 iterator bodies (guarded counter, unguarded, two-argument state, keyword state, local before yield, implicit argument variables, two "
-                      f"yields) x every history of {maxops} operations over variables x, y: next, A, list chain, reduce chain on either; y := g.new(..), "
+    ck.cov["rule"] = (f"{len(BODIES)} iterator bodies (guarded counter, unguarded, two-argument state, keyword state, local before yield, implicit argument variables, two "
+                      f"yields, recur / defer recur before a guard with a hole) x every history of {maxops} operations over variables x, y: next, A, list chain, reduce chain on either; y := g.new(..), "
                       "y := x.new(..), y := x._iter, y := x; non-trivial = histories mixing next with a derivation or a walk")
     ck.assumptions = ["StopIterErr outcomes of next are observed through x.try.next.A", "built-in iterators (cursor in a Go closure) are outside the statement"]
     return ck.finish()
